@@ -147,6 +147,10 @@ Proof.
   - discriminate.
 Qed.
 
+Section WithVariant.
+Variable fx : variant.
+Let af : bool := negb (fx_falsy fx).
+
 (* what gs_finish does with a chosen value v *)
 Definition chosen_shape (failno : bool) (p : parser) (cfg cfg1 : ns) (subs : list node) : Prop :=
   (exists n, get (p_dest p) cfg1 = Some (NStr n) /\ n <> [] /\ subs = [NStr n] /\
@@ -155,20 +159,21 @@ Definition chosen_shape (failno : bool) (p : parser) (cfg cfg1 : ns) (subs : lis
                         In n (p_names p) -> is_ns (get n cfg) = true -> o = n) /\
              (failno = true -> p_req p = true -> In n (p_names p)))
   \/ (exists v, get (p_dest p) cfg1 = Some v /\ (forall s, v <> NStr s) /\ v <> NNone /\ subs = [v])
-  \/ (exists v, get (p_dest p) cfg1 = Some v /\ v <> NNone /\ truthy v = false).
+  \/ (exists v, get (p_dest p) cfg1 = Some v /\ v <> NNone /\ truthy v = false /\
+                (failno = true -> fx_falsy fx = false)).
 
 Lemma gs_finish_some failno p cfg cfg0 v cfg1 subs :
   wf p ->
   (forall k, k <> p_dest p -> get k cfg0 = get k cfg) ->
   get (p_dest p) cfg0 = Some v -> v <> NNone ->
   (forall n, v = NStr n -> n <> []) ->
-  gs_finish failno p (keys_of p cfg) cfg0 (Some v) = Ok (cfg1, subs) ->
+  gs_finish fx failno true p (keys_of p cfg) cfg0 (Some v) = Ok (cfg1, subs) ->
   (forall k, ~ In k (p_names p) -> k <> p_dest p -> get k cfg1 = get k cfg) /\
   (forall k, In k (p_names p) -> get k cfg1 = get k cfg \/ get k cfg1 = None) /\
   get (p_dest p) cfg1 = Some v /\
   chosen_shape failno p cfg cfg1 subs.
 Proof.
-  intros W F0 D0 Vn Vne G. unfold gs_finish in G.
+  intros W F0 D0 Vn Vne G. unfold gs_finish in G. rewrite !orb_true_r, !andb_true_r in G.
   set (keys := keys_of p cfg) in *.
   assert (Dk : mem_str (p_dest p) keys = false).
   { destruct (mem_str (p_dest p) keys) eqn:M; [|reflexivity].
@@ -178,13 +183,13 @@ Proof.
               (b = true -> truthy v = true /\ (1 <? length keys)%nat = true) /\
               (b = false -> truthy v = false \/ (1 <? length keys)%nat = false) /\
               subs = (if truthy v then [v] else map NStr keys) /\
-              (failno = true -> p_req p = true -> in_map p v = true)).
+              (failno = true -> (p_req p || fx_falsy fx) = true -> in_map p v = true)).
   { exists (truthy v && (1 <? length keys)%nat).
     assert (Q : Ok ((if truthy v && (1 <? length keys)%nat then dels v keys cfg0 else cfg0),
                     (if truthy v then [v] else map NStr keys)) = Ok (cfg1, subs) /\
-                (failno = true -> p_req p = true -> in_map p v = true)).
+                (failno = true -> (p_req p || fx_falsy fx) = true -> in_map p v = true)).
     { destruct failno.
-      - destruct (p_req p && negb (in_map p v)) eqn:Q; [discriminate|]. split; [exact G|].
+      - destruct ((p_req p || fx_falsy fx) && negb (in_map p v)) eqn:Q; [discriminate|]. split; [exact G|].
         intros _ Rq. rewrite Rq in Q. simpl in Q. destruct (in_map p v); [reflexivity|discriminate].
       - split; [exact G|]. intro; discriminate. }
     destruct Q as [Q1 Q2]. inversion Q1; subst. repeat split; auto.
@@ -224,16 +229,22 @@ Proof.
           - simpl in So. rewrite (F0 _ Od) in So.
             destruct (Rf eq_refl) as [X|X]; [simpl in *; congruence|].
             apply (short_list_same keys); auto; apply keys_of_In; auto. }
-        { intros Fn Rq. specialize (R3 Fn Rq). simpl in R3. apply mem_str_In in R3. exact R3. }
+        { intros Fn Rq. assert (Rq' : (p_req p || fx_falsy fx) = true) by (rewrite Rq; reflexivity).
+          specialize (R3 Fn Rq'). simpl in R3. apply mem_str_In in R3. exact R3. }
       * contradiction.
       * right. left. exists (NNs l). repeat split; auto. intros s E; discriminate.
-    + right. right. exists v. auto.
+    + right. right. exists v. repeat split; auto.
+      intro Fn. destruct (fx_falsy fx) eqn:Ff; [|reflexivity].
+      assert (Rq' : (p_req p || true) = true) by apply orb_true_r.
+      specialize (R3 Fn Rq'). destruct v as [z|n| |l]; simpl in R3; try discriminate.
+      apply mem_str_In in R3. pose proof (wf_name_nonempty p n W R3) as Ne.
+      destruct n; [contradiction|discriminate].
 Qed.
 
 (* the facts about get_subcommands in "single" mode that the selection theorem needs *)
 Lemma get_subcommands_single failno p cfg cfg1 subs :
   wf p -> p_has p = true ->
-  get_subcommands failno true p cfg = Ok (cfg1, subs) ->
+  get_subcommands fx failno true p cfg = Ok (cfg1, subs) ->
   (forall k, ~ In k (p_names p) -> k <> p_dest p -> get k cfg1 = get k cfg) /\
   (forall k, In k (p_names p) -> get k cfg1 = get k cfg \/ get k cfg1 = None) /\
   (forall v, get (p_dest p) cfg = Some v -> v <> NNone -> get (p_dest p) cfg1 = Some v) /\
@@ -245,7 +256,7 @@ Proof.
   intros W Hh H. unfold get_subcommands in H. rewrite Hh in H. simpl in H.
   fold (keys_of p cfg) in H. unfold gs_choose in H.
   assert (None_case : (get (p_dest p) cfg = None \/ get (p_dest p) cfg = Some NNone) ->
-            gs_finish failno p (keys_of p cfg)
+            gs_finish fx failno true p (keys_of p cfg)
               (fst (match keys_of p cfg with
                     | k0 :: _ => if failno || true then (set (p_dest p) (NStr k0) cfg, Some (NStr k0)) else (cfg, None)
                     | [] => (cfg, None) end))
@@ -283,9 +294,15 @@ Proof.
     + simpl in H. destruct n as [|c n'].
       * (* "" : falsy *)
         unfold gs_finish in H. simpl in H.
-        assert (cfg1 = cfg).
-        { destruct failno; [match type of H with (if ?c then _ else _) = _ => destruct c end; [discriminate|]|]; inversion H; reflexivity. }
-        subst cfg1. split; [intros; reflexivity|]. split; [intros; left; reflexivity|].
+        assert (X : cfg1 = cfg /\ (failno = true -> fx_falsy fx = false)).
+        { destruct failno.
+          - match type of H with (if ?c then _ else _) = _ => destruct c eqn:Q end; [discriminate|].
+            split; [inversion H; reflexivity|]. intros _.
+            destruct (fx_falsy fx); [|reflexivity]. rewrite orb_true_r in Q. simpl in Q.
+            destruct (mem_str [] (p_names p)) eqn:M; [|discriminate].
+            apply mem_str_In in M. destruct (wf_name_nonempty p [] W M eq_refl).
+          - split; [inversion H; reflexivity|]. intro; discriminate. }
+        destruct X as [X Xf]. subst cfg1. split; [intros; reflexivity|]. split; [intros; left; reflexivity|].
         split; [intros v0 Dv _; rewrite D; exact Dv|].
         left. right. right. exists (NStr []). repeat split; auto. discriminate.
       * destruct (gs_finish_some failno p cfg cfg (NStr (c :: n')) cfg1 subs W) as [A [B [D' C]]]; auto; try discriminate.
@@ -310,6 +327,7 @@ Inductive Handled : parser -> ns -> Prop :=
     p_has p = true -> (get (p_dest p) cfg = None \/ get (p_dest p) cfg = Some NNone) ->
     p_req p = false -> keys_of p cfg = [] -> Handled p cfg
 | H_falsy p cfg v :
+    fx_falsy fx = false ->
     p_has p = true -> get (p_dest p) cfg = Some v -> v <> NNone -> truthy v = false -> Handled p cfg.
 
 Definition penv_ok (penv : parser -> cobj -> res ns) : Prop :=
@@ -324,7 +342,7 @@ Proof.
   destruct (wf_opt_not_name p k W I) as [A B]. rewrite (F k A B). exact S.
 Qed.
 
-Lemma get_subcommands_nohas failno single p cfg : p_has p = false -> get_subcommands failno single p cfg = Ok (cfg, []).
+Lemma get_subcommands_nohas failno single p cfg : p_has p = false -> get_subcommands fx failno single p cfg = Ok (cfg, []).
 Proof. intro H. unfold get_subcommands. rewrite H. reflexivity. Qed.
 
 Lemma handle_loop_frame step p : 
@@ -357,12 +375,12 @@ Qed.
 
 Lemma handle_strict penv : penv_ok penv ->
   forall f env p cfg cfg', wf p ->
-    handle penv f env true true true p cfg = Ok cfg' ->
+    handle fx penv f env true true true p cfg = Ok cfg' ->
     Handled p cfg' /\ frame p cfg cfg'.
 Proof.
   intros PE. induction f as [|f IH]; intros env p cfg cfg' W H; [discriminate|].
   simpl in H. destruct (p_has p) eqn:Hh.
-  - destruct (get_subcommands true true p cfg) as [[cfg1 subs]|] eqn:G; [|discriminate].
+  - destruct (get_subcommands fx true true p cfg) as [[cfg1 subs]|] eqn:G; [|discriminate].
     destruct (get_subcommands_single true p cfg cfg1 subs W Hh G) as [F1 [F2 [_ Sh]]].
     destruct Sh as [[Sh|[Sh|Sh]]|Sh].
     + (* a proper name *)
@@ -389,7 +407,7 @@ Proof.
       { rewrite Fr; [exact D1|apply (wf_dest_not_name p W)]. }
       destruct (p_has sp) eqn:Hs.
       * rewrite get_set, str_eqb_refl in St. simpl in St.
-        destruct (handle penv f (option_map (fun e => env_sub e n) env) true true true sp msec) as [sec'|] eqn:R; [|discriminate].
+        destruct (handle fx penv f (option_map (fun e => env_sub e n) env) true true true sp msec) as [sec'|] eqn:R; [|discriminate].
         inversion St; subst cfg'. clear St.
         destruct (IH _ _ _ _ Wsp R) as [Hsec Fsec].
         split.
@@ -406,7 +424,7 @@ Proof.
       destruct Sh as [v [_ [Ns [_ Ss]]]]. subst subs. simpl in H.
       unfold handle_step in H. destruct v; try discriminate. destruct (Ns s eq_refl).
     + (* falsy *)
-      destruct Sh as [v [D1 [Vn Tv]]].
+      destruct Sh as [v [D1 [Vn [Tv Ff]]]].
       assert (Fr : forall k, ~ In k (p_names p) -> get k cfg' = get k cfg1).
       { intros k Nk. eapply handle_loop_frame; [|exact H|exact Nk].
         intros sv c c' E. apply (handle_step_frame _ _ _ _ _ _ _ _ E). }
@@ -424,27 +442,27 @@ Qed.
 (* ---------- the links pass (second get_subcommands, single mode, never failing) ---------- *)
 Lemma get_subcommands_none single p cfg :
   p_has p = true -> (get (p_dest p) cfg = None \/ get (p_dest p) cfg = Some NNone) ->
-  keys_of p cfg = [] -> get_subcommands false single p cfg = Ok (cfg, []).
+  keys_of p cfg = [] -> get_subcommands fx false single p cfg = Ok (cfg, []).
 Proof.
   intros Hh Dn K. unfold get_subcommands. rewrite Hh. simpl. fold (keys_of p cfg). rewrite K.
   unfold gs_choose. destruct Dn as [Dn|Dn]; rewrite Dn; reflexivity.
 Qed.
 
 Lemma links_inv f p cfg cfg' :
-  p_has p = true -> links_pass (S f) p cfg = Ok cfg' ->
-  exists cfg1 subs, get_subcommands false true p cfg = Ok (cfg1, subs) /\
+  p_has p = true -> links_pass fx (S f) p cfg = Ok cfg' ->
+  exists cfg1 subs, get_subcommands fx false true p cfg = Ok (cfg1, subs) /\
     (cfg' = cfg1 \/
      exists s rest sp sec sec', subs = NStr s :: rest /\ get s cfg1 = Some (NNs sec) /\
-        assoc s (p_choices p) = Some sp /\ links_pass f sp sec = Ok sec' /\ cfg' = set s (NNs sec') cfg1).
+        assoc s (p_choices p) = Some sp /\ links_pass fx f sp sec = Ok sec' /\ cfg' = set s (NNs sec') cfg1).
 Proof.
   intros Hh H. simpl in H.
-  destruct (get_subcommands false true p cfg) as [[cfg1 subs]|] eqn:G; [|discriminate].
+  destruct (get_subcommands fx false true p cfg) as [[cfg1 subs]|] eqn:G; [|discriminate].
   exists cfg1, subs. split; [reflexivity|].
   destruct subs as [|sv rest]; [left; inversion H; reflexivity|].
   destruct sv as [z|s| |l]; try (left; inversion H; reflexivity).
   destruct (get s cfg1) as [[z|s'| |sec]|] eqn:Gs; try discriminate; try (left; inversion H; reflexivity).
   destruct (assoc s (p_choices p)) as [sp|] eqn:A; [|discriminate].
-  destruct (links_pass f sp sec) as [sec'|] eqn:L; [|discriminate].
+  destruct (links_pass fx f sp sec) as [sec'|] eqn:L; [|discriminate].
   right. exists s, rest, sp, sec, sec'. inversion H. auto.
 Qed.
 
@@ -454,8 +472,8 @@ Proof.
   assert (In o (keys_of p cfg)) by (apply keys_of_In; auto). rewrite K in H. destruct H.
 Qed.
 
-Lemma links_sel : forall f p cfg cfg', wf p -> Handled p cfg -> links_pass f p cfg = Ok cfg' ->
-  Sel true p cfg' /\ frame p cfg cfg'.
+Lemma links_sel : forall f p cfg cfg', wf p -> Handled p cfg -> links_pass fx f p cfg = Ok cfg' ->
+  Sel af p cfg' /\ frame p cfg cfg'.
 Proof.
   induction f as [|f IH]; intros p cfg cfg' W Hd H; [discriminate|].
   destruct (p_has p) eqn:Hh.
@@ -469,7 +487,7 @@ Proof.
   assert (Frame : frame p cfg cfg').
   { intros k Nk Dk. rewrite FrR; auto. }
   split; [|exact Frame].
-  inversion Hd as [p0 c0 Hl|p0 c0 n sp sec _ D Nn A Gn Cs Hs|p0 c0 _ Dn Rq K|p0 c0 v _ D Vn Tv]; subst p0 c0.
+  inversion Hd as [p0 c0 Hl|p0 c0 n sp sec _ D Nn A Gn Cs Hs|p0 c0 _ Dn Rq K|p0 c0 v Ff _ D Vn Tv]; subst p0 c0.
   - congruence.
   - (* a name was chosen by handle *)
     assert (In_ : In n (p_names p)) by (apply (assoc_In_names _ _ _ A)).
@@ -482,10 +500,10 @@ Proof.
       destruct R as [R|[s [rest [sp' [sec0 [sec' [Es [Gs [A' [L R]]]]]]]]]].
       * (* cannot happen: the section is there *)
         subst subs. simpl in H. rewrite G in H. rewrite Gn1, A in H.
-        destruct (links_pass f sp sec) as [sec'|] eqn:L; [|discriminate].
+        destruct (links_pass fx f sp sec) as [sec'|] eqn:L; [|discriminate].
         destruct (IH _ _ _ (wf_sub p n sp W A) Hs L) as [S1 Fs].
         inversion H; subst cfg'.
-        apply (Sel_some true p _ n sp sec'); auto.
+        apply (Sel_some af p _ n sp sec'); auto.
         -- rewrite get_set, (str_eqb_neq _ _ (fun E => Ndd (eq_sym E))). exact D1.
         -- rewrite get_set, str_eqb_refl. reflexivity.
         -- apply (frame_complete sp sec sec' (wf_sub p n sp W A) Fs Cs).
@@ -495,7 +513,7 @@ Proof.
       * rewrite Ss in Es. inversion Es; subst s. rewrite Gn1 in Gs. inversion Gs; subst sec0.
         rewrite A in A'. inversion A'; subst sp'.
         destruct (IH _ _ _ (wf_sub p n sp W A) Hs L) as [S1 Fs]. subst cfg'.
-        apply (Sel_some true p _ n sp sec'); auto.
+        apply (Sel_some af p _ n sp sec'); auto.
         -- rewrite get_set, (str_eqb_neq _ _ (fun E => Ndd (eq_sym E))). exact D1.
         -- rewrite get_set, str_eqb_refl. reflexivity.
         -- apply (frame_complete sp sec sec' (wf_sub p n sp W A) Fs Cs).
@@ -503,7 +521,7 @@ Proof.
            destruct (is_ns (get o cfg1)) eqn:E; [|reflexivity].
            destruct On. apply Oth; auto. rewrite Gn. reflexivity.
     + destruct Sh as [v [D1' [Ns _]]]. rewrite D1 in D1'. inversion D1'; subst v. destruct (Ns n eq_refl).
-    + destruct Sh as [v [D1' [_ Tv]]]. rewrite D1 in D1'. inversion D1'; subst v.
+    + destruct Sh as [v [D1' [_ [Tv _]]]]. rewrite D1 in D1'. inversion D1'; subst v.
       destruct n; [contradiction|discriminate].
     + destruct Sh as [[Dn|Dn] _]; rewrite Dn in D; discriminate.
   - (* nothing chosen, optional *)
@@ -511,34 +529,35 @@ Proof.
     destruct R as [R|[s [rest [sp' [sec0 [sec' [Es _]]]]]]]; [|discriminate]. subst cfg'.
     apply Sel_none; auto. apply keys_of_nil. exact K.
   - (* falsy *)
-    apply (Sel_falsy true p cfg' v); auto.
+    apply (Sel_falsy af p cfg' v); auto.
+    { unfold af. rewrite Ff. reflexivity. }
     rewrite FrR; [|apply (wf_dest_not_name p W)]. apply Fd; auto.
 Qed.
 
 (* ---------- _parse_common in the strict mode, then every entry point ---------- *)
-Lemma validate_ok_unit f p cfg u : validate f p cfg = Ok u -> True.
+Lemma validate_ok_unit f p cfg u : validate fx f p cfg = Ok u -> True.
 Proof. trivial. Qed.
 
 Lemma parse_common_sel penv f env skipval p cfg cfg' :
   penv_ok penv -> wf p ->
-  parse_common penv f env skipval true p cfg = Ok cfg' -> Sel true p cfg' /\ frame p cfg cfg'.
+  parse_common fx penv f env skipval true p cfg = Ok cfg' -> Sel af p cfg' /\ frame p cfg cfg'.
 Proof.
   intros PE W H. unfold parse_common in H.
-  destruct (handle penv f env true true true p cfg) as [c1|] eqn:Hd; [|discriminate].
-  destruct (links_pass f p c1) as [c2|] eqn:L; [|discriminate].
+  destruct (handle fx penv f env true true true p cfg) as [c1|] eqn:Hd; [|discriminate].
+  destruct (links_pass fx f p c1) as [c2|] eqn:L; [|discriminate].
   destruct (handle_strict penv PE f env p cfg c1 W Hd) as [Hc1 F1].
   destruct (links_sel f p c1 c2 W Hc1 L) as [S2 F2].
   assert (cfg' = c2).
-  { destruct skipval; [inversion H; reflexivity|]. destruct (validate f p c2); [inversion H; reflexivity|discriminate]. }
+  { destruct skipval; [inversion H; reflexivity|]. destruct (validate fx f p c2); [inversion H; reflexivity|discriminate]. }
   subst c2. split; [exact S2|]. intros k Nk Dk. rewrite (F2 k Nk Dk). apply F1; auto.
 Qed.
 
 (* ---------- frames for arbitrary failno (single mode): completeness of parse_env results ---------- *)
 Lemma handle_frame_single penv f env defaults failno p cfg cfg' :
-  wf p -> handle penv f env defaults failno true p cfg = Ok cfg' -> frame p cfg cfg'.
+  wf p -> handle fx penv f env defaults failno true p cfg = Ok cfg' -> frame p cfg cfg'.
 Proof.
   intros W H. destruct f as [|f]; [discriminate|]. simpl in H.
-  destruct (get_subcommands failno true p cfg) as [[cfg1 subs]|] eqn:G; [|discriminate].
+  destruct (get_subcommands fx failno true p cfg) as [[cfg1 subs]|] eqn:G; [|discriminate].
   destruct (p_has p) eqn:Hh.
   - destruct (get_subcommands_single failno p cfg cfg1 subs W Hh G) as [F1 _].
     intros k Nk Dk. rewrite <- (F1 k Nk Dk).
@@ -548,7 +567,7 @@ Proof.
     intros k _ _. reflexivity.
 Qed.
 
-Lemma links_frame f p cfg cfg' : wf p -> links_pass f p cfg = Ok cfg' -> frame p cfg cfg'.
+Lemma links_frame f p cfg cfg' : wf p -> links_pass fx f p cfg = Ok cfg' -> frame p cfg cfg'.
 Proof.
   intros W H. destruct f as [|f]; [discriminate|].
   destruct (p_has p) eqn:Hh.
@@ -561,13 +580,13 @@ Proof.
 Qed.
 
 Lemma parse_common_frame penv f env skipval failno p cfg cfg' :
-  wf p -> parse_common penv f env skipval failno p cfg = Ok cfg' -> frame p cfg cfg'.
+  wf p -> parse_common fx penv f env skipval failno p cfg = Ok cfg' -> frame p cfg cfg'.
 Proof.
   intros W H. unfold parse_common in H.
-  destruct (handle penv f env true failno true p cfg) as [c1|] eqn:Hd; [|discriminate].
-  destruct (links_pass f p c1) as [c2|] eqn:L; [|discriminate].
+  destruct (handle fx penv f env true failno true p cfg) as [c1|] eqn:Hd; [|discriminate].
+  destruct (links_pass fx f p c1) as [c2|] eqn:L; [|discriminate].
   assert (cfg' = c2).
-  { destruct skipval; [inversion H; reflexivity|]. destruct (validate f p c2); [inversion H; reflexivity|discriminate]. }
+  { destruct skipval; [inversion H; reflexivity|]. destruct (validate fx f p c2); [inversion H; reflexivity|discriminate]. }
   subst c2. intros k Nk Dk. rewrite (links_frame f p c1 cfg' W L k Nk Dk).
   apply (handle_frame_single penv f env true failno p cfg c1 W Hd k Nk Dk).
 Qed.
@@ -586,21 +605,21 @@ Arguments defaults_and_environ : simpl never.
 Arguments parse_common : simpl never.
 Arguments apply_config : simpl never.
 
-Lemma parse_env_complete : forall f, penv_ok (parse_env f).
+Lemma parse_env_complete : forall f, penv_ok (parse_env fx f).
 Proof.
   intros f sp e d W H. destruct f as [|f]; [discriminate|]. simpl in H.
-  destruct (defaults_and_environ (parse_env f) sp (Some e)) as [cfg|] eqn:D; [|discriminate].
+  destruct (defaults_and_environ (parse_env fx f) sp (Some e)) as [cfg|] eqn:D; [|discriminate].
   apply (frame_complete sp cfg d W (parse_common_frame _ _ _ _ _ _ _ _ W H)).
   apply (defaults_and_environ_complete _ _ _ _ D).
 Qed.
 
 (* ---------- the entry points end in the strict _parse_common ---------- *)
 Lemma parse_args_last f env skipval p a nsp cfg :
-  parse_args (S f) env skipval p a nsp = Ok cfg ->
-  exists cfg3, parse_common (parse_env f) f env skipval true p cfg3 = Ok cfg.
+  parse_args fx (S f) env skipval p a nsp = Ok cfg ->
+  exists cfg3, parse_common fx (parse_env fx f) f env skipval true p cfg3 = Ok cfg.
 Proof.
   intro H. simpl in H.
-  destruct (defaults_and_environ (parse_env f) p env) as [cfg0|]; [|discriminate].
+  destruct (defaults_and_environ (parse_env fx f) p env) as [cfg0|]; [|discriminate].
   destruct a as [items sub].
   match type of H with match ?X with _ => _ end = _ => destruct X as [cfg2|]; [|discriminate] end.
   match type of H with match ?X with _ => _ end = _ => destruct X as [cfg3|]; [|discriminate] end.
@@ -608,18 +627,20 @@ Proof.
 Qed.
 
 Theorem one_selected_or_falsy fuel p x cfg :
-  wf p -> parse fuel p x = Ok cfg -> Sel true p cfg.
+  wf p -> parse fx fuel p x = Ok cfg -> Sel af p cfg.
 Proof.
   intros W H. unfold parse in H.
-  assert (C : forall c, parse_cfg fuel (i_env x) p c = Ok cfg -> Sel true p cfg).
+  assert (C : forall c, parse_cfg fx fuel (i_env x) p c = Ok cfg -> Sel af p cfg).
   { intros c Hc. destruct fuel as [|f]; [discriminate|]. simpl in Hc.
-    destruct (defaults_and_environ (parse_env f) p (i_env x)) as [base|]; [|discriminate].
+    destruct (defaults_and_environ (parse_env fx f) p (i_env x)) as [base|]; [|discriminate].
     apply (parse_common_sel _ _ _ _ _ _ _ (parse_env_complete f) W Hc). }
   destruct (i_entry x) as [a|c|c]; [|apply (C c H)|apply (C c H)].
   destruct fuel as [|f]; [discriminate|].
   destruct (parse_args_last _ _ _ _ _ _ _ H) as [cfg3 H3].
   apply (parse_common_sel _ _ _ _ _ _ _ (parse_env_complete f) W H3).
 Qed.
+
+End WithVariant.
 
 (* ---------- with the guard: no falsy subcommand key in the result ---------- *)
 Lemma dest_truthy_here p cfg v :
@@ -677,6 +698,9 @@ Proof.
   - discriminate.
 Qed.
 
+Section WithVariant2.
+Variable fx : variant.
+
 (* the error branch: nothing given at all and a required subcommand => NoSubcommand, for every tree *)
 Lemma defaults_no_sections p k : is_ns (get k (get_defaults p)) = false.
 Proof.
@@ -704,7 +728,7 @@ Qed.
 
 Lemma get_subcommands_defaults_required p :
   wf p -> p_has p = true -> p_req p = true ->
-  get_subcommands true true p (get_defaults p) = Err NoSubcommand.
+  get_subcommands fx true true p (get_defaults p) = Err NoSubcommand.
 Proof.
   intros W Hh Rq. unfold get_subcommands. rewrite Hh. simpl.
   assert (K : filter (fun k => is_ns (get k (get_defaults p))) (p_names p) = []).
@@ -715,18 +739,20 @@ Qed.
 
 Lemma required_missing_fails_empty p f :
   wf p -> p_has p = true -> p_req p = true ->
-  parse (S (S f)) p {| i_env := None; i_entry := EObject [] |} = Err NoSubcommand /\
-  parse (S (S f)) p {| i_env := None; i_entry := EString [] |} = Err NoSubcommand /\
-  parse (S (S f)) p {| i_env := None; i_entry := EArgs (ArgvT [] None) |} = Err NoSubcommand.
+  parse fx (S (S f)) p {| i_env := None; i_entry := EObject [] |} = Err NoSubcommand /\
+  parse fx (S (S f)) p {| i_env := None; i_entry := EString [] |} = Err NoSubcommand /\
+  parse fx (S (S f)) p {| i_env := None; i_entry := EArgs (ArgvT [] None) |} = Err NoSubcommand.
 Proof.
   intros W Hh Rq.
-  assert (C : parse_common (parse_env (S f)) (S f) None false true p (get_defaults p) = Err NoSubcommand).
+  assert (C : parse_common fx (parse_env fx (S f)) (S f) None false true p (get_defaults p) = Err NoSubcommand).
   { unfold parse_common. simpl. rewrite (get_subcommands_defaults_required p W Hh Rq). reflexivity. }
   repeat split; unfold parse; simpl.
   - unfold parse_cfg. unfold defaults_and_environ. exact C.
   - unfold parse_cfg. unfold defaults_and_environ. exact C.
   - unfold defaults_and_environ. exact C.
 Qed.
+
+End WithVariant2.
 
 (* ---------- the checker for wf ---------- *)
 Lemma wf_b_sound : forall f p, wf_b f p = true -> wf p.
@@ -751,16 +777,172 @@ Proof.
   - intros n q I. apply IH. apply (H4 (n, q) I).
 Qed.
 
-(* ---------- the property theorems, assembled ---------- *)
-Lemma one_selected fuel p x cfg :
-  wf p -> parse fuel p x = Ok cfg -> dest_truthy p cfg = true -> Sel false p cfg.
+(* ---------- WHICH subcommand: the explicit channels of the selection rule ----------
+   an explicit (non-None) subcommand key survives _parse_common unchanged, in every variant *)
+Section Which.
+Variable fx : variant.
+
+Lemma handle_keeps_dest penv f env defaults failno p cfg cfg' v :
+  wf p -> p_has p = true ->
+  handle fx penv f env defaults failno true p cfg = Ok cfg' ->
+  get (p_dest p) cfg = Some v -> v <> NNone -> get (p_dest p) cfg' = Some v.
 Proof.
-  intros W H T. exact (one_selected_guarded p cfg (one_selected_or_falsy fuel p x cfg W H) T).
+  intros W Hh H D Vn. destruct f as [|f]; [discriminate|]. simpl in H.
+  destruct (get_subcommands fx failno true p cfg) as [[cfg1 subs]|] eqn:G; [|discriminate].
+  destruct (get_subcommands_single fx failno p cfg cfg1 subs W Hh G) as [_ [_ [Fd _]]].
+  rewrite <- (Fd v D Vn).
+  eapply handle_loop_frame; [|exact H|apply (wf_dest_not_name p W)].
+  intros sv c c' E. apply (handle_step_frame _ _ _ _ _ _ _ _ E).
+Qed.
+
+Lemma links_keeps_dest f p cfg cfg' v :
+  wf p -> p_has p = true -> links_pass fx f p cfg = Ok cfg' ->
+  get (p_dest p) cfg = Some v -> v <> NNone -> get (p_dest p) cfg' = Some v.
+Proof.
+  intros W Hh H D Vn. destruct f as [|f]; [discriminate|].
+  destruct (links_inv fx f p cfg cfg' Hh H) as [cfg1 [subs [G R]]].
+  destruct (get_subcommands_single fx false p cfg cfg1 subs W Hh G) as [_ [_ [Fd _]]].
+  rewrite <- (Fd v D Vn).
+  destruct R as [R|[s [rest [sp [sec [sec' [_ [_ [A [_ R]]]]]]]]]]; subst cfg'; [reflexivity|].
+  rewrite get_set, str_eqb_neq; [reflexivity|].
+  intro E. apply (wf_dest_not_name p W). rewrite E. apply (assoc_In_names _ _ _ A).
+Qed.
+
+Lemma parse_common_keeps_dest penv f env skipval failno p cfg cfg' v :
+  wf p -> p_has p = true ->
+  parse_common fx penv f env skipval failno p cfg = Ok cfg' ->
+  get (p_dest p) cfg = Some v -> v <> NNone -> get (p_dest p) cfg' = Some v.
+Proof.
+  intros W Hh H D Vn. unfold parse_common in H.
+  destruct (handle fx penv f env true failno true p cfg) as [c1|] eqn:Hd; [|discriminate].
+  destruct (links_pass fx f p c1) as [c2|] eqn:L; [|discriminate].
+  assert (cfg' = c2).
+  { destruct skipval; [inversion H; reflexivity|]. destruct (validate fx f p c2); [inversion H; reflexivity|discriminate]. }
+  subst c2.
+  apply (links_keeps_dest f p c1 cfg' v W Hh L); [|exact Vn].
+  apply (handle_keeps_dest penv f env true failno p cfg c1 v W Hh Hd D Vn).
+Qed.
+
+(* "The choice is the one named on the command line": whatever the options, --cfg values (which may
+   name another subcommand) and the environment say *)
+Lemma argv_name_wins fuel env p items n rest cfg :
+  wf p ->
+  parse fx fuel p {| i_env := env; i_entry := EArgs (ArgvT items (Some (n, rest))) |} = Ok cfg ->
+  In n (p_names p) /\ get (p_dest p) cfg = Some (NStr n).
+Proof.
+  intros W H. unfold parse in H. simpl in H. destruct fuel as [|f]; [discriminate|]. simpl in H.
+  destruct (defaults_and_environ (parse_env fx f) p env) as [cfg0|]; [|discriminate].
+  match type of H with match ?X with _ => _ end = _ => destruct X as [cfg2|]; [|discriminate] end.
+  destruct (p_has p) eqn:Hh; [|discriminate]. simpl in H.
+  destruct (assoc n (p_choices p)) as [sp|] eqn:A; [|discriminate].
+  assert (In_ : In n (p_names p)) by (apply (assoc_In_names _ _ _ A)).
+  split; [exact In_|].
+  match type of H with match ?X with _ => _ end = _ => destruct X as [cfg3|] eqn:C; [|discriminate] end.
+  apply (parse_common_keeps_dest _ _ _ _ _ _ _ _ (NStr n) W Hh H); [|discriminate].
+  match type of C with match ?X with _ => _ end = _ => destruct X as [subns|]; [|discriminate] end.
+  match type of C with match ?X with _ => _ end = _ => destruct X as [sec|]; [|discriminate] end.
+  inversion C; subst cfg3.
+  rewrite get_set, str_eqb_neq.
+  - rewrite get_set, str_eqb_refl. reflexivity.
+  - intro E. apply (wf_dest_not_name p W). rewrite E. exact In_.
+Qed.
+
+(* "else the one named in the config": parse_object / parse_string *)
+Lemma set_keys x k v c : In x (map fst (set k v c)) <-> x = k \/ In x (map fst c).
+Proof.
+  induction c as [|[k0 v0] t IH]; simpl.
+  - intuition.
+  - destruct (str_eqb k k0) eqn:E; simpl.
+    + apply str_eqb_spec in E. subst k0. intuition.
+    + rewrite IH. intuition.
+Qed.
+
+Lemma set_nodup k v c : NoDup (map fst c) -> NoDup (map fst (set k v c)).
+Proof.
+  induction c as [|[k0 v0] t IH]; simpl; intro N.
+  - constructor; [intros []|constructor].
+  - destruct (str_eqb k k0) eqn:E; simpl.
+    + apply str_eqb_spec in E. subst k0. exact N.
+    + inversion N; subst. constructor; [|apply IH; assumption].
+      intro I. apply set_keys in I. destruct I as [I|I]; [|contradiction].
+      subst k0. rewrite str_eqb_refl in E. discriminate.
+Qed.
+
+Fixpoint obj_ns (l : cobj) : ns :=
+  match l with [] => [] | (k, v) :: t => set k (to_node v) (obj_ns t) end.
+
+Lemma to_ns_obj l : to_ns l = obj_ns l.
+Proof. unfold to_ns. simpl. induction l as [|[k v] t IH]; simpl; [reflexivity|]. rewrite <- IH. reflexivity. Qed.
+
+Lemma obj_ns_nodup l : NoDup (map fst (obj_ns l)).
+Proof. induction l as [|[k v] t IH]; simpl; [constructor|]. apply set_nodup. exact IH. Qed.
+
+Lemma obj_ns_get k l : get k (obj_ns l) = option_map to_node (assoc k l).
+Proof.
+  induction l as [|[k0 v0] t IH]; simpl; [reflexivity|].
+  rewrite get_set. destruct (str_eqb k k0); [reflexivity|exact IH].
+Qed.
+
+Lemma merge_other k from : forall to, ~ In k (map fst from) -> get k (merge from to) = get k to.
+Proof.
+  induction from as [|[k0 v0] t IH]; intros to N; [reflexivity|].
+  rewrite merge_cons. simpl in N.
+  assert (Ne : str_eqb k k0 = false) by (apply str_eqb_neq; intro E; apply N; left; auto).
+  rewrite IH; [|intro I; apply N; right; exact I].
+  destruct v0; try (rewrite get_set, Ne; reflexivity).
+  destruct (leafy (NNs l)); [rewrite get_set, Ne|]; reflexivity.
+Qed.
+
+Lemma merge_leaf k s from : forall to,
+  NoDup (map fst from) -> get k from = Some (NStr s) -> get k (merge from to) = Some (NStr s).
+Proof.
+  induction from as [|[k0 v0] t IH]; intros to N G; [discriminate|].
+  rewrite merge_cons. simpl in G. inversion N as [|? ? Nk Nt]; subst.
+  destruct (str_eqb k k0) eqn:E.
+  - apply str_eqb_spec in E. subst k0. inversion G; subst v0.
+    rewrite merge_other; [|exact Nk]. rewrite get_set, str_eqb_refl. reflexivity.
+  - apply IH; assumption.
+Qed.
+
+Lemma config_name_wins fuel env p c n cfg :
+  wf p -> p_has p = true -> named_in (p_dest p) c = Some n ->
+  parse_cfg fx fuel env p c = Ok cfg -> get (p_dest p) cfg = Some (NStr n).
+Proof.
+  intros W Hh Nm H. destruct fuel as [|f]; [discriminate|]. simpl in H.
+  destruct (defaults_and_environ (parse_env fx f) p env) as [base|]; [|discriminate].
+  apply (parse_common_keeps_dest _ _ _ _ _ _ _ _ (NStr n) W Hh H); [|discriminate].
+  apply merge_leaf.
+  - rewrite to_ns_obj. apply obj_ns_nodup.
+  - rewrite to_ns_obj, obj_ns_get. unfold named_in in Nm.
+    destruct (assoc (p_dest p) c) as [[z|s0|l]|]; try discriminate. inversion Nm; subst. reflexivity.
+Qed.
+
+Lemma object_name_wins fuel env p c n cfg :
+  wf p -> p_has p = true -> named_in (p_dest p) c = Some n ->
+  (parse fx fuel p {| i_env := env; i_entry := EObject c |} = Ok cfg \/
+   parse fx fuel p {| i_env := env; i_entry := EString c |} = Ok cfg) ->
+  get (p_dest p) cfg = Some (NStr n).
+Proof.
+  intros W Hh Nm [H|H]; unfold parse in H; simpl in H; exact (config_name_wins fuel env p c n cfg W Hh Nm H).
+Qed.
+
+End Which.
+
+(* ---------- the property theorems, assembled ---------- *)
+(* the pinned tree (variant orig, and any variant without the falsy fix) *)
+Lemma one_selected_or_falsy_orig fuel p x cfg :
+  wf p -> parse orig fuel p x = Ok cfg -> Sel true p cfg.
+Proof. exact (one_selected_or_falsy orig fuel p x cfg). Qed.
+
+Lemma one_selected fuel p x cfg :
+  wf p -> parse orig fuel p x = Ok cfg -> dest_truthy p cfg = true -> Sel false p cfg.
+Proof.
+  intros W H T. exact (one_selected_guarded p cfg (one_selected_or_falsy_orig fuel p x cfg W H) T).
 Qed.
 
 Lemma required_selected fuel p x cfg :
   wf p -> p_has p = true -> p_req p = true ->
-  parse fuel p x = Ok cfg -> dest_truthy p cfg = true ->
+  parse orig fuel p x = Ok cfg -> dest_truthy p cfg = true ->
   exists n sp sec, get (p_dest p) cfg = Some (NStr n) /\ assoc n (p_choices p) = Some sp /\
                    get n cfg = Some (NNs sec) /\ complete sp sec = true.
 Proof.
@@ -769,11 +951,37 @@ Qed.
 
 Lemma optional_missing_gives_none fuel p x cfg :
   wf p -> p_has p = true ->
-  parse fuel p x = Ok cfg -> dest_truthy p cfg = true ->
+  parse orig fuel p x = Ok cfg -> dest_truthy p cfg = true ->
   (get (p_dest p) cfg = None \/ get (p_dest p) cfg = Some NNone) ->
   p_req p = false /\ forall o, In o (p_names p) -> is_ns (get o cfg) = false.
 Proof.
   intros W Hh H T Dn. exact (optional_none p cfg (one_selected fuel p x cfg W H T) Hh Dn).
+Qed.
+
+(* every variant with the falsy fix (whatever fx_cfg is): the FULL statement, no guard *)
+Lemma fixed_one_selected fx fuel p x cfg :
+  fx_falsy fx = true -> wf p -> parse fx fuel p x = Ok cfg -> Sel false p cfg.
+Proof.
+  intros Ff W H. pose proof (one_selected_or_falsy fx fuel p x cfg W H) as S.
+  rewrite Ff in S. exact S.
+Qed.
+
+Lemma fixed_required_selected fx fuel p x cfg :
+  fx_falsy fx = true -> wf p -> p_has p = true -> p_req p = true ->
+  parse fx fuel p x = Ok cfg ->
+  exists n sp sec, get (p_dest p) cfg = Some (NStr n) /\ assoc n (p_choices p) = Some sp /\
+                   get n cfg = Some (NNs sec) /\ complete sp sec = true.
+Proof.
+  intros Ff W Hh Rq H. exact (required_has_name p cfg (fixed_one_selected fx fuel p x cfg Ff W H) Hh Rq).
+Qed.
+
+Lemma fixed_optional_missing_gives_none fx fuel p x cfg :
+  fx_falsy fx = true -> wf p -> p_has p = true ->
+  parse fx fuel p x = Ok cfg ->
+  (get (p_dest p) cfg = None \/ get (p_dest p) cfg = Some NNone) ->
+  p_req p = false /\ forall o, In o (p_names p) -> is_ns (get o cfg) = false.
+Proof.
+  intros Ff W Hh H Dn. exact (optional_none p cfg (fixed_one_selected fx fuel p x cfg Ff W H) Hh Dn).
 Qed.
 
 (* ---------- witnesses ---------- *)
@@ -799,7 +1007,7 @@ Definition x_falsy : input :=
      i_entry := EObject [(s_sub, CStr []); (s_a, CObj [(s_x, CInt 5)]); (s_b, CObj [(s_y, CInt 6)])] |}.
 
 Lemma falsy_name_refuted :
-  exists fuel p x cfg, wf p /\ parse fuel p x = Ok cfg /\ ~ Sel false p cfg /\
+  exists fuel p x cfg, wf p /\ parse orig fuel p x = Ok cfg /\ ~ Sel false p cfg /\
                        is_ns (get s_a cfg) = true /\ is_ns (get s_b cfg) = true.
 Proof.
   exists 10%nat, p_opt, x_falsy.
